@@ -485,6 +485,19 @@ class Interp:
                 return
             yield self.raise_py(TypeError, 'ordering with None'), st
             return
+        if isinstance(a, tuple) and isinstance(b, tuple) and opn in ('==', '!='):
+            if len(a) != len(b):
+                yield opn == '!=', st
+                return
+            parts = []
+            for x, y in zip(a, b):
+                outs = list(self.compare_op(ast.Eq(), x, y, st, node))
+                if len(outs) != 1 or isinstance(outs[0][0], Raised):
+                    self.err(node, 'tuple comparison forks')
+                parts.append(outs[0][0])
+            r = b_and(*parts)
+            yield (r if opn == '==' else b_not(r)), st
+            return
         if isinstance(a, (str, tuple)) or isinstance(b, (str, tuple)):
             if isinstance(a, (str, tuple)) and type(a) is type(b):
                 yield {'<': a < b, '<=': a <= b, '>': a > b, '>=': a >= b, '==': a == b, '!=': a != b}[opn] \
@@ -726,6 +739,19 @@ class Interp:
 
     def setattr(self, o, name, v, st, node=None):
         if isinstance(o, SObj):
+            if o.frozen and '__owner' in o.fields:
+                owner = find_by_oid(st, o.fields['__owner'])
+                if owner is None or owner.frozen:
+                    self.err(node, f'store to field {name} of an element of a read-only list')
+                idx = o.fields['__idx']
+                new = SObj(o.cls, dict(o.fields), frozen=True)
+                new.fields[name] = v
+                old = owner.elem if not owner.concrete else None
+                if old is None:
+                    self.err(node, 'store through a view of a concrete list')
+                owner.elem = lambda j, old=old, idx=idx, name=name, v=v: self._elem_with(old(j), j, idx, name, v)
+                yield None, st
+                return
             if o.frozen:
                 self.err(node, f'mutation of frozen object field {name}')
             try:
@@ -755,6 +781,15 @@ class Interp:
             yield None, st
             return
         self.err(node, f'attribute store on {o!r}')
+
+    def _elem_with(self, base, j, idx, name, v):
+        """element j of a list one of whose elements (idx) had field ``name`` set to v"""
+        c = mm.compare('==', j, idx)
+        if c is False:
+            return base
+        new = SObj(base.cls, dict(base.fields), frozen=True)
+        new.fields[name] = v if c is True else self.ite(c, v, base.fields[name])
+        return new
 
     def e_Subscript(self, node, st):
         for o, s in self.eval(node.value, st):
